@@ -446,6 +446,22 @@ def run_history(cfg, ops, res=None, only_op=None, tear=True, stop_first=True, qu
                     img[ent[0]:ent[0] + len(ent[1])] = ent[1]
                 continue
             # 3. premise check + crash points
+            # a directory of the durable tree is rewritten from its first cluster on, in chain order (so that a cut
+            # leaves "new clusters, then old clusters"); anything else is a different way to lose entries than the
+            # compaction of finding D27
+            out_of_order = False
+            nxt = {}
+            for ent in seg:
+                if ent[0] == "T":
+                    continue
+                c_ = lay.cluster_of(ent[0])
+                o_ = lay.owner.get(c_) if c_ is not None else None
+                if o_ is None or o_ not in lay.chains or c_ not in lay.chains[o_] or o_ not in R:
+                    continue
+                k_ = lay.chains[o_].index(c_)
+                if k_ != 0 and k_ != nxt.get(o_, 0):
+                    out_of_order = True
+                nxt[o_] = k_ + 1
             for wi, ent in enumerate(seg):
                 if ent[0] == "T":
                     divs.append({"what": "device truncated during %s" % opkind(op), "op_index": oi})
@@ -483,6 +499,8 @@ def run_history(cfg, ops, res=None, only_op=None, tear=True, stop_first=True, qu
                             # compacted (later entries move up); cut between two of its sectors/clusters, the
                             # entries of its sub-directories are torn or doubled
                             sig = "crash:ancestor-directory-compacted:%s" % op[0]
+                            if out_of_order:
+                                sig = "crash:ancestor-directory-rewritten-out-of-chain-order:%s" % op[0]
                         findings.append({"kind": kind, "sig": sig, "op_index": oi, "point": [wi, pi],
                                          "detail": "%s — crash during %s after %s of write %d/%d (%s region, %d bytes at %d)"
                                                    % (detail, opkind(op), "sector %d/%d" % (pi + 1, len(ps)), wi + 1, len(seg), cls, len(wdata), pos)})
